@@ -33,7 +33,7 @@ def run(ctx):
     ctx.rule("K2", "disparity chain: encoders[0].disp_in <- registered encoders[-1].disp_out (under ce); e2.disp_in <- "
                    "e1.disp_out over consecutive pairs; data/k/outputs wired index-wise", min_sites=6)
     ctx.rule("K3", "literal tables: ones-count validity set {4,5,6}; table shapes; flips = unbalanced + patches; complements "
-                   "distinct; K.28 / alternate-7 patches on unused slots", min_sites=23)
+                   "distinct; K.28 / alternate-7 patches on unused slots", min_sites=21)
     ctx.rule("K4", "alternate 3b/4b code selection: alt7 flags = y == 7 & (x in {17,18,20} at RD- | x in {11,13,14} at RD+ | k); "
                    "0111 / 1000 emitted exactly under them and flip the running disparity", min_sites=5)
     ctx.rule("PRIO", "no dead driver", min_sites=1)
@@ -107,15 +107,17 @@ def run(ctx):
     ok = len(inv) == 1
     vals = set()
     if ok:
-        f = B.from_expr(inv[0].value)
-        ats = B.atoms(f)
-        for at in ats:
-            if at.startswith("ones == "):
-                vals.add(int(at.split("== ")[1]))
-        ok = vals == {4, 5, 6} and B.equivalent(f, B.And(*[B.Not(B.A(f"ones == {v}")) for v in (4, 5, 6)]))
+        # decision table over the possible counts 0..10 of a 10-bit word (any spelling: != chains, range tests, ...)
+        tab = q.eval_over(q.Inliner(fx, inv[0]).inline(B.from_expr(inv[0].value)), "ones", range(11))
+        vals = {v for v, t in (tab or {}).items() if not t}
+        ok = tab is not None and not inv[0].guards and vals == {4, 5, 6}
     ctx.ob("K3", F, "Decoder", "invalid <=> ones-count not in {4,5,6}", ok, "" if ok else f"{[a.v for a in inv]} (set {sorted(vals)})")
     on = fx.find(domain="sync", target="ones")
-    ok = len(on) == 1 and on[0].v == "Reduce('ADD', [self.input[i] for i in range(10)])"
+    ok = len(on) == 1 and isinstance(on[0].value, ast.Call) and norm(on[0].value.func) == "Reduce" and len(on[0].value.args) == 2 and \
+        norm(on[0].value.args[0]) == "'ADD'"
+    if ok:
+        els = q.star_elements(on[0].value.args[1])
+        ok = bool(els) and len(els) == 1 and els[0][2] == "range(10)" and norm(els[0][0]) == f"self.input[{els[0][1]}]"
     ctx.ob("K3", F, "Decoder", "ones = sum of the ten input bits", ok, "" if ok else f"{[a.v for a in on]}")
     try:
         t56 = const_fold(m.const("table_5b6b"))
@@ -133,48 +135,75 @@ def run(ctx):
     ds = {_disp(x, 4) for x in t34}
     ok = ds <= {0, 2} or ds <= {0, -2}
     ctx.ob("K3", F, "table_3b4b", "disparity of every entry is 0 or 2 of one sign", ok, "" if ok else f"{[(bin(x), _disp(x, 4)) for x in t34]}")
-    # derived lists (normal forms of the defining expressions) and patches
-    want_defs = {"table_5b6b_unbalanced": "[bool(disparity(c, 6)) for c in table_5b6b]", "table_5b6b_flip": "list(table_5b6b_unbalanced)",
-                 "table_3b4b_unbalanced": "[bool(disparity(c, 4)) for c in table_3b4b]", "table_3b4b_flip": "list(table_3b4b_unbalanced)",
-                 "table_6b5b": "reverse_table_flip(table_5b6b, table_5b6b_flip, 6)", "table_4b3b": "reverse_table_flip(table_3b4b, table_3b4b_flip, 4)",
-                 "table_4b3b_kn": "reverse_table(table_3b4b, 4)", "table_4b3b_kp": "reverse_table([~x & 15 for x in table_3b4b], 4)"}
-    for k, v in want_defs.items():
-        got = norm(m.const(k))
-        ctx.ob("K3", F, k, f"defined as {short(v, 50)}", cnorm(m.const(k)) == cnorm(v), f"{k} = {got}")
-    patches = {}
-    for st in m.tree.body:
-        if isinstance(st, ast.Assign) and isinstance(st.targets[0], ast.Subscript) and isinstance(st.targets[0].value, ast.Name):
-            try:
-                patches.setdefault(st.targets[0].value.id, {})[const_fold(st.targets[0].slice)] = const_fold(st.value)
-            except ValueError:
-                raise AnalysisError(f"{F}:{st.lineno}: table patch is not a literal")
-    ok = patches.get("table_5b6b_flip") == {7: True} and patches.get("table_3b4b_flip") == {3: True}
-    ctx.ob("K3", F, "<patches>", "flip patches: 5b6b[7] (D.7), 3b4b[3] (D.x.3)", ok,
-           "" if ok else f"{patches.get('table_5b6b_flip')} / {patches.get('table_3b4b_flip')}")
-    flip56 = [bool(_disp(c, 6)) for c in t56]
+    # derived tables and patches: the *values* the module-level statements leave in the tables (constant propagation over the
+    # module body with the helper functions interpreted, lxs/pyconst.py) against the values the construction prescribes:
+    # flips = unbalanced entries + the D.7 / D.x.3 patches; decoder tables = inverse of the code words and of their flipped
+    # complements + the K.28 / alternate-7 / control patches on unused slots
+    from .. import pyconst
+    funcs = {n.name: n for n in m.tree.body if isinstance(n, ast.FunctionDef)}
+    it = pyconst.Interp(funcs=funcs)
+    try:
+        it.run([st for st in m.tree.body if not isinstance(st, (ast.FunctionDef, ast.ClassDef, ast.Import, ast.ImportFrom))])
+    except Exception as ex:
+        raise AnalysisError(f"{F}: module-level table code cannot be interpreted: {ex}")
+    tabs = {k: v for k, v in it.env.items() if v is not pyconst.UNKNOWN}
+
+    def rev(words, flips, nbits):
+        out = [None] * (1 << nbits)
+        for idx, (w, fl) in enumerate(zip(words, flips)):
+            out[w] = idx
+            if fl:
+                out[~w & ((1 << nbits) - 1)] = idx
+        return [0 if x is None else x for x in out]
+    unb56 = [bool(_disp(c, 6)) for c in t56]
+    flip56 = list(unb56)
     flip56[7] = True
+    unb34 = [bool(_disp(c, 4)) for c in t34]
+    flip34 = list(unb34)
+    flip34[3] = True
+    t65 = rev(t56, flip56, 6)
+    t65[0b001111] = t65[0b110000] = 0b11100
+    t43 = rev(t34, flip34, 4)
+    t43[0b0111] = t43[0b1000] = 0b0111
+    tkn = rev(t34, [False] * 8, 4)
+    tkn[0b0001], tkn[0b1000] = 0, 7
+    tkp = rev([~x & 15 for x in t34], [False] * 8, 4)
+    tkp[0b1110], tkp[0b0111] = 0, 7
+    want_tabs = {"table_5b6b_unbalanced": unb56, "table_5b6b_flip": flip56, "table_3b4b_unbalanced": unb34, "table_3b4b_flip": flip34,
+                 "table_6b5b": t65, "table_4b3b": t43, "table_4b3b_kn": tkn, "table_4b3b_kp": tkp}
+    for k, want in want_tabs.items():
+        got = tabs.get(k)
+        ok = got is not None and [int(x) if not isinstance(x, bool) else x for x in got] == want and \
+            (not isinstance(want[0], bool) or all(bool(a) == b for a, b in zip(got, want)))
+        diff = [(i_, a, b) for i_, (a, b) in enumerate(zip(got, want)) if a != b][:4] if isinstance(got, list) and len(got) == len(want) else got
+        ctx.ob("K3", F, k, "final table value = construction from the code tables + documented patches", ok,
+               "" if ok else f"{k} differs at (index, is, should be) {diff}: " +
+               ("a code word is (not) complemented at the wrong running disparity" if "flip" in k or "unbalanced" in k else
+                "a received code word decodes to the wrong symbol / a patch overwrites a used slot"))
     used6 = set(t56) | {(~w) & 63 for w, f in zip(t56, flip56) if f}
     ok = len(used6) == 32 + sum(flip56)
     ctx.ob("K3", F, "table_5b6b", "entries and flipped complements pairwise distinct (decoder table well defined)", ok,
            "" if ok else "a 6-bit code word would decode to two symbols")
-    p6 = patches.get("table_6b5b", {})
-    ok = p6 == {0b001111: 0b11100, 0b110000: 0b11100} and not (set(p6) & used6)
-    ctx.ob("K3", F, "table_6b5b", "K.28 patches (001111, 110000 -> 28) on unused slots", ok, "" if ok else f"{p6}; used {sorted(set(p6) & used6)}")
-    flip34 = [bool(_disp(c, 4)) for c in t34]
-    flip34[3] = True
+    ok = not ({0b001111, 0b110000} & used6)
+    ctx.ob("K3", F, "table_6b5b", "K.28 patches (001111, 110000 -> 28) on unused slots", ok, "" if ok else f"used {sorted({0b001111, 0b110000} & used6)}")
     used4 = set(t34) | {(~w) & 15 for w, f in zip(t34, flip34) if f}
     ok = len(used4) == 8 + sum(flip34)
     ctx.ob("K3", F, "table_3b4b", "entries and flipped complements pairwise distinct", ok, "" if ok else "a 4-bit code word would decode to two symbols")
-    p4 = patches.get("table_4b3b", {})
-    ok = p4 == {0b0111: 0b0111, 0b1000: 0b0111} and not (set(p4) & used4)
-    ctx.ob("K3", F, "table_4b3b", "alternate D.x.7 patches (0111, 1000 -> 7) on unused slots", ok, "" if ok else f"{p4}")
-    ok = patches.get("table_4b3b_kn") == {0b0001: 0, 0b1000: 7} and patches.get("table_4b3b_kp") == {0b1110: 0, 0b0111: 7}
-    ctx.ob("K3", F, "table_4b3b_k*", "control-symbol 4b/3b patches", ok, "" if ok else f"{patches.get('table_4b3b_kn')} / {patches.get('table_4b3b_kp')}")
-    # disparity helper: n1 - n0
+    ok = not ({0b0111, 0b1000} & used4)
+    ctx.ob("K3", F, "table_4b3b", "alternate D.x.7 patches (0111, 1000 -> 7) on unused slots", ok, "" if ok else f"used {sorted({7, 8} & used4)}")
+    # disparity helper: ones - zeros, for every 6-bit and 4-bit word
     df = m.func("disparity")
-    ret = [norm(n.value) for n in ast.walk(df) if isinstance(n, ast.Return)]
-    ok = ret == ["n1 - n0"] and any(isinstance(n, ast.If) and cnorm(n.test) == cnorm("word & 1 << i") for n in ast.walk(df))
-    ctx.ob("K3", F, "disparity", "disparity = ones - zeros", ok, "" if ok else f"returns {ret}")
+    badd = None
+    try:
+        for nb in (4, 6):
+            for w in range(1 << nb):
+                got = pyconst.call(df, {"word": w, "nbits": nb}, funcs=funcs)
+                if got != ("return", _disp(w, nb)) and badd is None:
+                    badd = (w, nb, got)
+    except pyconst.Unknowable as ex:
+        raise AnalysisError(f"{F}: disparity() cannot be interpreted: {ex}")
+    ok = badd is None
+    ctx.ob("K3", F, "disparity", "disparity = ones - zeros", ok, "" if ok else f"disparity({bin(badd[0])}, {badd[1]}) = {badd[2]}")
     # encoder special cases reference the same literals
     fx = fx_of(ctx, F, "SingleEncoder")
     k28 = [a for a in fx.find(domain="sync", target="code6b") if a.v == "48"]
@@ -186,14 +215,11 @@ def run(ctx):
     #      {11,13,14}; K.x.7 always uses it
     for flag, xs in (("alt7_rd0", (17, 18, 20)), ("alt7_rd1", (11, 13, 14))):
         ds = fx.find(domain="sync", target=flag)
-        sets = [a for a in ds if a.v == "1"]
-        clr = [a for a in ds if a.v == "0"]
-        F1 = B.F
-        for a in sets:
-            F1 = B.Or(F1, B.guard_formula(a.guards))
+        sets = [a for a in ds if a.v != "0"]
+        # next value of the flag (later assignments win; no "hold" term may survive: the flag is recomputed every cycle)
+        F1 = q.value_formula(fx, ds) if ds else B.F
         want = B.from_expr("(self.d[5:] == 7) & ((self.d[:5] == %d) | (self.d[:5] == %d) | (self.d[:5] == %d) | self.k)" % xs)
-        ok = len(clr) == 1 and not clr[0].guards and all(fx.assigns.index(a) > fx.assigns.index(clr[0]) for a in sets) and \
-            len(ds) == len(sets) + 1 and B.equivalent(F1, want)
+        ok = bool(ds) and B.equivalent(F1, want)
         ctx.ob("K4", F, "SingleEncoder", f"{flag} = y == 7 & (x in {set(xs)} | k), cleared otherwise", ok,
                "" if ok else f"{flag} is set under {B.show(F1)}; expected {B.show(want)}: a D.x.7 / K.x.7 symbol takes the primary 3b/4b code "
                              f"at this running disparity (five equal bits in a row / a control symbol that decodes as data); e.g. "
